@@ -269,8 +269,12 @@ Top:
 			b = append(b, "}>"...)
 		}
 	case SpecialSyntax:
+		sargs := to.GetArgs()
+		if len(sargs) == 0 { // (quote) with nothing to quote
+			return append(b, '(', ')')
+		}
 		b = append(b, to.SpecialPrefix()...)
-		obj = to.GetArgs()[0]
+		obj = sargs[0]
 		goto Top
 	case Funky:
 		name := to.GetName()
@@ -405,7 +409,13 @@ Top:
 		n.buf = to.Readably(nil, p)
 		n.size = len(n.buf)
 	case SpecialSyntax:
-		obj = to.GetArgs()[0]
+		sargs := to.GetArgs()
+		if len(sargs) == 0 { // (quote) with nothing to quote
+			n.buf = []byte{'(', ')'}
+			n.size = 2
+			return &n
+		}
+		obj = sargs[0]
 		n.special = to.SpecialPrefix()
 		n.funky = true
 		goto Top
